@@ -70,7 +70,7 @@ CLAIMED = {
         engine="E1-kernel-in-the-loop",
         technique="Coq proof (case analysis of the state machine, induction over operation histories) + kernel-in-the-loop correspondence with an interposed kill() log",
         text="Theorems C10_*: on a Running handle a signalling call issues exactly one kill with exactly the requested signal (for every signal number); no other operation ever sends a signal; after termination was observed (any status, Undetermined included) or after our own waitpid reaped the child, every later history issues no system call at all and signalling calls return success.",
-        note="Trusted: as C09.  A kill that hits a pid reaped by foreign code before any query observed it cannot be prevented by the library and is outside the property's statement.",
+        note="Trusted: as C09.  A kill that hits a pid reaped by foreign code before any query observed it cannot be prevented by the library and is outside the property's statement.  Lib/PopenSM.v abstracts waitpid's options to {0, WNOHANG}: the interposer forwards every other option bit and any such bit breaks the tie; to turn that into a concrete history the glue (ocaml/src/spsim.ml, not the proved kernel model) emulates job-control stops for WUNTRACED, and a monitor reports a signalling call that sent nothing to a child that is alive and was never reaped.",
         design="5/C10"),
     "C11": dict(
         engine="E1-kernel-in-the-loop",
@@ -105,7 +105,7 @@ CLAIMED = {
     "C15": dict(
         engine="E2-logged-real-spawns",
         technique="Coq proof (induction over the PATH string for the tokenizer, over the candidate list for the exec loop, file system as a universally quantified oracle) + real launches in generated directory layouts (executable / non-executable / directory / garbage / missing / over-long candidates) with the logged execve path sequence and outcome judged by the extracted model + hook differential of split_path",
-        text="Theorems C15_*: split_path = the non-empty pieces between colons, in order; a slash-free name is tried as <entry>/<name> for exactly those entries in PATH order, a name with a slash is tried as given and alone; for every file-system oracle the execve calls are the candidates up to and including the first startable one, which is the image that runs, and when none is startable every candidate was tried, an error comes back (ENOENT when there was no candidate, otherwise the last candidate's errno) and no image runs; an explicitly named executable goes through the same function.",
+        text="Theorems C15_*: split_path = the non-empty pieces between colons, in order; a slash-free name is tried as <entry>/<name> for exactly those entries in PATH order, a name with a slash is tried as given and alone; for every file-system oracle the execve calls are the candidates up to and including the first startable one, which is the image that runs, and when none is startable every candidate was tried, an error comes back (ENOENT when there was no candidate, otherwise the last candidate's errno) and no image runs; an explicitly named executable goes through the same function; the environment requested for the child (a PATH entry of its own included) has no influence on the candidates or the outcome (C15_lookup_ignores_child_env).",
         note="Trusted: as C06; the file-system oracle of the harness is validated against the kernel's errno for every path tried.  Unreadable directories cannot be produced when the check runs as root and are not exercised.",
         design="5/C15"),
     "C16": dict(
